@@ -26,6 +26,7 @@ import (
 // that park before delivering each command and each reply, so the scheduler
 // decides the interleaving of commands of different connections (DESIGN 2.6).
 type redisWorld struct {
+	skew    time.Duration
 	latency time.Duration
 	e       *sim.Env
 	m       *miniredis.Miniredis
@@ -45,15 +46,17 @@ func newRedisWorld(e *sim.Env, c *sim.Case) (*redisWorld, error) {
 	m.Server().Close()
 	m.Seed(1)
 	now := time.Now()
-	m.SetTime(now)
-	return &redisWorld{e: e, m: m, clients: map[int]kvs.Storage{}, last: now, latency: time.Duration(c.Knob("net_latency_ns", 0))}, nil
+	m.SetTime(now.Add(time.Duration(c.Knob("redis_clock_skew_ns", 0))))
+	return &redisWorld{e: e, m: m, clients: map[int]kvs.Storage{}, last: now, latency: time.Duration(c.Knob("net_latency_ns", 0)), skew: time.Duration(c.Knob("redis_clock_skew_ns", 0))}, nil
 }
 
 func (rw *redisWorld) syncClock() {
 	now := time.Now()
 	if d := now.Sub(rw.last); d > 0 {
 		rw.m.FastForward(d)
-		rw.m.SetTime(now)
+		// the server's wall clock may be off against the clients' (knob redis_clock_skew_ns):
+		// relative TTLs do not care, absolute expiry commands would
+		rw.m.SetTime(now.Add(rw.skew))
 		rw.last = now
 	}
 }
